@@ -27,7 +27,8 @@ assert_in_tree(clienting, httping, serving)
 PID = "C14"
 RULE = ("cases: method x unicode path (segments without '?', '#', control characters) x query dict (arbitrary unicode keys "
         "and values incl. reserved characters, empties, ints) x <= 90 headers (token names, latin-1 values) x body as raw "
-        "bytes / JSON data / form fields (urlencoded or multipart), with or without explicit Content-Length. non-trivial = "
+        "bytes / JSON data / form fields (urlencoded or multipart), with or without explicit Content-Length, optionally after "
+        "1-2 earlier requests on the same persistent connection (one Requestant re-armed per message, as the server does). non-trivial = "
         "non-ASCII path, or a reserved character (&=+#%?;/ or blank) or non-ASCII in a query key, or >= 10 headers; distinct "
         "= canonical hash of the spec")
 ASSUMPTIONS = ["the path argument is URL path syntax: it starts with a single '/', has no '?', '#', control characters or "
@@ -70,11 +71,32 @@ def run_case(spec):
     msg = reqr.build()
     head = reqr.head
     sent_body = msg[len(head):]
-    results, left, raised = httpdrive.drive_requestant([msg])
-    if raised or len(results) != 1:
-        r.fail("C14/not-parsed", "raised=%r parsed %d messages; start line %r" % (raised, len(results), msg.split(b"\r\n")[0][:120]))
+    # earlier requests on the same (persistent) connection: the server reuses one Requestant per connection, so
+    # whatever it recovers for THIS request must come from this request's bytes only
+    before = b""
+    for pv in spec.get("prev") or []:
+        pk = dict(hostname="127.0.0.1", port=8080, method=pv["method"], path=pv["path"],
+                  headers=[tuple(h) for h in pv["headers"]])
+        if pv["method"] != "GET":
+            if pv.get("json"):
+                pk["data"] = {"k": pv["body"].decode("latin-1")}
+            else:
+                pk["body"] = pv["body"]
+        before += clienting.Requester(**pk).build()
+    nprev = len(spec.get("prev") or [])
+    results, left, raised = httpdrive.drive_requestant([before + msg])
+    if raised or len(results) != nprev + 1:
+        r.fail("C14/not-parsed" + ("(after earlier requests on the connection)" if nprev else ""),
+               "raised=%r parsed %d of %d messages; start line %r" % (raised, len(results), nprev + 1,
+                                                                      msg.split(b"\r\n")[0][:120]))
         return finish(r, spec)
-    got = results[0]
+    got = results[-1]
+    wire_names = {ln.split(b":", 1)[0].decode("latin-1").lower() for ln in bytes(head).split(b"\r\n")[1:] if b":" in ln}
+    extra = set(got["headers"]) - wire_names
+    if extra:
+        r.fail("C14/headers-from-an-earlier-request", "server reports headers %r for a request whose bytes carry only %r" % (
+            sorted(extra)[:6], sorted(wire_names)[:12]))
+        return finish(r, spec)
     if got["errored"]:
         r.fail("C14/server-errored", "error %r; start line %r" % (got["error"], msg.split(b"\r\n")[0][:120]))
         return finish(r, spec)
@@ -82,10 +104,18 @@ def run_case(spec):
         r.fail("C14/unconsumed-bytes", "%r" % left[:60])
         return finish(r, spec)
     # environ through the real buildEnviron
-    msg2 = bytearray(msg)
+    msg2 = bytearray(before + msg)
     req = serving.Requestant(msg=msg2, remoter=httpdrive.StubRemoter())
-    req.parse()
+    for _k in range(nprev + 1):
+        req.parse()
+        if _k < nprev:
+            req.makeParser()
     env = make_server().buildEnviron(req)
+    leaked = [k for k in env if k.startswith("HTTP_") and k[5:] not in {n.replace("-", "_").upper() for n in wire_names}]
+    if leaked:
+        r.fail("C14/environ-headers-from-an-earlier-request", "environ has %r, the request's bytes carry only %r" % (
+            leaked[:6], sorted(wire_names)[:12]))
+        return finish(r, spec)
     if got["method"] != spec["method"] or env["REQUEST_METHOD"] != spec["method"]:
         r.fail("C14/method", "sent %r got %r / %r" % (spec["method"], got["method"], env["REQUEST_METHOD"]))
     elif got["path"] != spec["path"]:
@@ -139,6 +169,8 @@ def finish(r, spec):
         r.labels.append("reserved/non-ascii-query-key")
     if len(spec["headers"]) >= 10:
         r.labels.append("headers>=10")
+    if spec.get("prev"):
+        r.labels.append("after-earlier-requests-on-the-connection")
     r.labels.append("body:" + spec["bodykind"])
     r.labels.append("method:" + ("GET" if spec["method"] == "GET" else "other"))
     return r
@@ -189,7 +221,16 @@ def spec_strategy():
         "data": st.dictionaries(st.text(max_size=5), JSONV, max_size=4),
         "fargs": st.lists(st.tuples(ftext.filter(bool), ftext).map(list), max_size=3, unique_by=lambda kv: kv[0]),
         "explicit_cl": st.booleans(),
+        "prev": st.one_of(st.just([]), st.just([]), st.lists(prev_request(), min_size=1, max_size=2)),
     })
+
+
+def prev_request():
+    name = httpgen.header_name().filter(lambda n: n.lower() not in RESERVED_HDR)
+    hv = st.tuples(st.one_of(name, st.sampled_from(["X-Trace", "Content-Language", "Accept"])), httpgen.header_value()).map(list)
+    return st.fixed_dictionaries({"method": st.sampled_from(["GET", "POST", "PUT"]), "path": st.sampled_from(["/", "/a", "/b/c"]),
+                                  "headers": st.lists(hv, max_size=3, unique_by=lambda h: h[0].lower()),
+                                  "body": st.binary(max_size=20), "json": st.booleans()})
 
 
 def searches(tier):
